@@ -4,7 +4,7 @@ import TaskModel.Sched.Verdicts
 import TaskModel.Sched.DeadlockLemmas
 import Driver.Util
 /-!
-`sched.run F <cap|-> <parallel> <force> <forceAll> <yes> <maxCalls>
+`sched.run F <cap|-> <parallel> <force> <forceAll> <yes> <maxCalls> <promptErr>
            P <ntasks> { <ndeps> dep* <ncmds> cmd* <ignoreErr> <run> <internal> <platformOk> <requiresOk> <enumOk> <precondOk> <upToDate> <prompt> }*
            C <ncalls> task*
            E <nevents> { <act> <ev> arg* }*
@@ -72,7 +72,8 @@ def flags : P Flags := do
   let c ← tok
   let cap := if c == "-" then none else c.toNat?
   let parallel ← bool; let force ← bool; let forceAll ← bool; let yes ← bool; let maxCalls ← nat
-  pure { cap, parallel, force, forceAll, yes, maxCalls }
+  let promptErr ← bool
+  pure { cap, parallel, force, forceAll, yes, maxCalls, promptErr }
 
 def optNat : P (Option Nat) := do let t ← tok; if t == "-" then pure none else match t.toNat? with | some n => pure (some n) | none => failure
 
